@@ -1837,3 +1837,33 @@ impl Actions {
         self.send.clear_queues(store, counts);
     }
 }
+
+#[cfg(feature = "h2_verif")]
+impl<B, P> Streams<B, P>
+where
+    B: Buf,
+    P: Peer,
+{
+    /// Read-only statistics snapshot for the verification harness: a JSON
+    /// document describing the stream store, counters, windows and buffers.
+    pub fn verif_snapshot(&self) -> String {
+        let mut me = self.inner.lock().unwrap();
+        let me = &mut *me;
+        let send_buffer = self.send_buffer.inner.lock().unwrap();
+        let mut streams = Vec::new();
+        me.store.for_each(|stream| {
+            streams.push(stream.verif_json());
+        });
+        format!(
+            "{{{},{},{},\"store_len\":{},\"send_buffer_len\":{},\"refs\":{},\"conn_error\":{},\"streams\":[{}]}}",
+            me.counts.verif_json(),
+            me.actions.recv.verif_json(),
+            me.actions.send.verif_json(),
+            streams.len(),
+            send_buffer.verif_len(),
+            me.refs,
+            me.actions.conn_error.is_some(),
+            streams.join(","),
+        )
+    }
+}
